@@ -15,6 +15,8 @@ INNER_TYPES = [
     "Item",  # concrete class without descendants
     "Basis",  # abstract class with model type
     "Mid",  # concrete class with a descendant
+    "Lonely",  # abstract class without any descendant
+    "Blob",  # constrained primitive (bytearray)
 ]
 WRAPS = ["{t}", "Optional[{t}]", "List[{t}]", "Optional[List[{t}]]"]
 
@@ -34,6 +36,21 @@ class Tag(str, DBC):
 @invariant(lambda self: self >= 0, "Level must be non-negative.")
 class Level(int, DBC):
     """Represent a level."""
+
+
+@invariant(lambda self: len(self) >= 0, "Blob must have a length.")
+class Blob(bytearray, DBC):
+    """Represent a blob."""
+
+
+@abstract
+class Lonely(DBC):
+    """Represent an abstract class which nobody implements."""
+
+    remark_text: str
+
+    def __init__(self, remark_text: str) -> None:
+        self.remark_text = remark_text
 
 
 class Item(DBC):
